@@ -63,7 +63,7 @@ class Sum(SameArrayShapeMixin, Command):
         result = arrays[0].copy()
 
         for arr in arrays[1:]:
-            result += arr
+            result = result + arr
 
         return result
 
@@ -91,7 +91,7 @@ class WeightedSum(SameArrayShapeMixin, Command):
 
         result = arrays[0] * weights[0]
         for weight, arr in zip(weights[1:], arrays[1:]):
-            result += arr * weight
+            result = result + arr * weight
 
         return result
 
@@ -113,7 +113,7 @@ class Multiply(SameArrayShapeMixin, Command):
 
         result = arrays[0].copy()
         for arr in arrays[1:]:
-            result *= arr
+            result = result * arr
 
         return result
 
@@ -213,7 +213,7 @@ class WeightedMean(SameArrayShapeMixin, Command):
 
         result = arrays[0] * weights[0]
         for weight, arr in zip(weights[1:], arrays[1:]):
-            result += arr * weight
+            result = result + arr * weight
 
         return result / sum(weights)
 
@@ -268,8 +268,7 @@ class NormalizeZScore(Command):
         y1 = end
         y2 = start
 
-        result = arr.copy()
-        result -= x1
+        result = arr - x1
         result *= y2 - y1
         result /= x2 - x1
         result += y1
